@@ -45,7 +45,7 @@ Step(newgates, call) == /\ gates' = newgates /\ ops' = Append(ops, call)
                         /\ \E n \in {NumQ(newgates)} : \E psi \in {Run(newgates, Base(n), n)} :
                            \E U \in {IF WithU THEN UnitaryM(newgates, n) ELSE [m |-> <<>>, e |-> 0]} :
                            \E o \in {MkObs(newgates, n, psi, U)} : obs' = o
-DoAdd == \E s \in {RandomElement(Shapes)} : \E k \in {RandomElement(0..7)} : \E p \in {RandomElement(0..7)} : \E l \in {RandomElement(0..7)} :
+DoAdd == \E s \in {RandomElement(Shapes)} : \E x \in {RandomElement(0..511)} : \E k \in {x % 8} : \E p \in {(x \div 8) % 8} : \E l \in {x \div 64} :
             LET g == [s EXCEPT !.par = SubSeq(<<k, p, l>>, 1, NPar(s.op))] IN Step(Append(gates, g), [call |-> "add", g |-> g, src |-> 0, d |-> 0])
 \* append_gate: re-use an existing Gate object (same matrix) on freshly chosen wires of the same arity
 DoReuse == gates # <<>> /\ \E i \in {RandomElement(1..Len(gates))} :
